@@ -389,5 +389,6 @@ RULES = [
     ("C09.wqwake", rule_wqwake),
     ("C09.floor", rule_floor),
     ("C09.wqguard", lambda c, r: lfht.rule_wqguard(c, r, "C09.wqguard")),
+    ("C09.emptywalk", lambda c, r: lfht.rule_emptywalk(c, r, "C09.emptywalk")),
 ]
 FLOORS = {"C09.pow2": 4}
